@@ -100,7 +100,6 @@ def _evaluate_projects(ctx, plan, tag, deadline_left):
     """returns [{'project': json, 'edits': [...], 'results': {cfg: result}}].
     One interpreter per (hash seed, chunk of jobs): the jobs of several projects share a process, so that the
     interpreter start-up is paid once per chunk."""
-    import multiprocessing.pool
     recs = []
     by_seed = {0: [], 1: [], 2: []}
     rng0 = ctx.subrng("cfg", tag)
@@ -139,18 +138,24 @@ def _evaluate_projects(ctx, plan, tag, deadline_left):
             part = lst[off:off + chunk]
             hs = {0: 0, 1: 1, 2: rng0.randrange(2, 2 ** 32)}[seed]
             extra = {} if seed == 0 else {"HOME": os.path.join(ctx.tmp, "home%d" % seed), "LANG": "C", "TZ": "Asia/Tokyo"}
-            items.append(([j for _, _, j in part], hs, extra, max(20, min(120, ctx.time_left() - 15))))
+            items.append(([j for _, _, j in part], hs, extra, max(20, min(90, ctx.time_left() * 0.5))))
             index.append([(pi, c) for pi, c, _ in part])
-    pool = multiprocessing.pool.ThreadPool(min(12, os.cpu_count() or 4, max(1, len(items))))
+    import concurrent.futures as cf
+    ex = cf.ThreadPoolExecutor(min(12, os.cpu_count() or 4, max(1, len(items))))
     try:
-        for idx, res in zip(index, pool.imap(_run_jobs, items)):
+        futs = [ex.submit(_run_jobs, it) for it in items]
+        for idx, fut in zip(index, futs):
+            try:
+                res = fut.result(timeout=max(1, ctx.time_left() - deadline_left + 5))
+            except cf.TimeoutError:
+                break
             for (pi, c), r in zip(idx, res):
                 recs[pi]["results"][c] = r
             if ctx.time_left() < deadline_left:
                 break
     finally:
-        pool.terminate()
-        pool.join()
+        # queued interpreters are dropped, running ones end by their own time-out
+        ex.shutdown(wait=True, cancel_futures=True)
     return recs
 
 
@@ -391,9 +396,9 @@ def oracle(ctx):
     recs = []
     batch = 12
     done = 0
-    while done < n and (done == 0 or ctx.time_left() > t0 * 0.4):
+    while done < n and (done == 0 or ctx.time_left() > t0 * 0.5):
         plan = _plan_range(ctx, done, min(n, done + batch), nedits)
-        part = _evaluate_projects(ctx, plan, "p%d" % done, t0 * 0.25 if done else 10)
+        part = _evaluate_projects(ctx, plan, "p%d" % done, t0 * 0.3 if done else 10)
         for rec in part:
             check_project(ctx, rec)
         if len(recs) < 100:      # kept for the correspondence
